@@ -40,6 +40,8 @@ def option_vectors(full=True):
         for bits in itertools.product([False, True], repeat=len(H.OPTS)):
             o = dict(zip(H.OPTS, bits))
             yield dict((k, v) for k, v in o.items() if v != H.default_opts()[k])
+        yield {'dstTemplate': True}
+        yield {'dstTemplate': True, 'ignoreErrors': True, 'genTexts': True}
     else:
         # the three options that interact with failures in every combination, the others toggled one at a time
         for nd, ie, wm in itertools.product([False, True], repeat=3):
@@ -55,6 +57,8 @@ def option_vectors(full=True):
         yield {'dryRun': True}
         yield {'genTexts': True}
         yield {'genTexts': True, 'ignoreErrors': True, 'noDeps': True}
+        yield {'dstTemplate': True}
+        yield {'dstTemplate': True, 'ignoreErrors': True}
 
 
 def deviations(n):
@@ -288,7 +292,12 @@ OCTETS = [
     ('ascii', b'-- plain\n'), ('latin1-in-comment', b'-- caf\xe9\n'), ('bad-utf8-in-text', None), ('utf8', '-- caf\u00e9\n'.encode('utf-8')),
     ('bom', b'\xef\xbb\xbf'), ('nul', b'\x00'), ('lone-continuation', b'-- \x80\x80\n'), ('truncated-sequence', b'-- \xe2\x82\n'),
     ('utf16-bom', b'\xff\xfe'), ('form-feed', b'\x0c\n'), ('ctrl-z-at-end', None),
+    # legal endings that leave the lexer in a state of its own: the next file must not notice
+    ('comment-without-line-end-at-end', None), ('cr-at-end', None),
+    # broken endings inside a skipped section
+    ('ends-inside-macro', None), ('ends-inside-exports', None), ('ends-inside-choice', None),
 ]
+LEGAL_ENDINGS = ('comment-without-line-end-at-end', 'cr-at-end')
 
 
 class FilesOnDisk(object):
@@ -325,11 +334,19 @@ class FilesOnDisk(object):
                                         % (m.encode(), m.encode()))
                 elif label == 'ctrl-z-at-end':
                     data = data + b'\x1a'
+                elif label == 'comment-without-line-end-at-end':
+                    data = data.rstrip(b'\n') + b' -- the end'
+                elif label == 'cr-at-end':
+                    data = data.rstrip(b'\n') + b'\r'
+                elif label.startswith('ends-inside-'):
+                    data = data.replace(b'END', {'macro': b'OBJECT-TYPE MACRO ::= BEGIN never closed', 'exports': b'EXPORTS a, b',
+                                                 'choice': b'T ::= CHOICE { a INTEGER'}[label[12:]])
                 else:
                     data = blob + data
             files[m] = data
         for b in env.BASE_NAMES:
             files[b] = env.base_text(b).encode('utf-8')
+        files['GOOD'] = b'GOOD DEFINITIONS ::= BEGIN\nIMPORTS enterprises FROM SNMPv2-SMI;\ngood OBJECT IDENTIFIER ::= { enterprises 77 }\nEND\n'
         base = os.environ.get('VERIF_TMP') or ('/dev/shm' if os.path.isdir('/dev/shm') else None)
         d = tempfile.mkdtemp(prefix='mcC07', dir=base)
         try:
@@ -350,16 +367,28 @@ class FilesOnDisk(object):
             comp.addSearchers(env.StubSearcher(*env.BASE_NAMES))
             sig = 'C07|files-on-disk|%s|%s' % (case['kind'], label)
             try:
-                res = comp.compile('A', ignoreErrors=case['ie'])
+                res = comp.compile('A', 'GOOD', ignoreErrors=case['ie'])
             except Exception as exc:
                 return 'escaped', [('%s|exception-escapes-compile|%s' % (sig, type(exc).__name__), '%r\nfile %s: %r' % (
                     exc, case['victim'], files[case['victim']][:200]))], 1
             vs = []
+            if label in LEGAL_ENDINGS:
+                for m in ('A', 'B'):
+                    if res.get(m) != 'compiled':
+                        vs.append(('%s|sound-module-not-compiled' % sig, '%s: %r %r' % (m, res.get(m), getattr(res.get(m), 'error', None))))
+            if label.startswith('ends-inside-') and case['victim'] == 'B' and case['ie'] and res.get('A') != 'failed':
+                pass
             for m in (('A', 'B') if case['victim'] == 'B' else ('A',)):   # B is reachable only through a parsed A
                 if str(res.get(m)) not in H.STATUSES:
                     vs.append(('%s|module-without-status' % sig, '%s: %r in %r' % (m, res.get(m), dict(res))))
             written = [n for n, _, _ in wr.written]
-            for m in ('A', 'B'):
+            # the sound module requested after the victim: compiled, or unprocessed when something failed and errors count
+            bad = any(str(res.get(m)) in ('failed', 'missing') for m in ('A', 'B'))
+            want_good = 'unprocessed' if (bad and not case['ie']) else 'compiled'
+            if str(res.get('GOOD')) != want_good:
+                vs.append(('%s|sound-module-%s-where-%s' % (sig, res.get('GOOD'), want_good),
+                           '%r %r' % (dict((k, str(v)) for k, v in res.items()), getattr(res.get('GOOD'), 'error', None))))
+            for m in ('A', 'B', 'GOOD'):
                 if (res.get(m) == 'compiled') != (written.count(m) == 1):
                     vs.append(('%s|status-and-hand-over-disagree' % sig, '%s: %r, written %r' % (m, res.get(m), written)))
             return repr(sorted((k, str(v)) for k, v in res.items())), vs, 1
@@ -367,4 +396,96 @@ class FilesOnDisk(object):
             shutil.rmtree(d, ignore_errors=True)
 
 
-FAMILIES = [NoDeviation(), OneDeviation(), TwoDeviations(), FailureAndRepair(), FilesOnDisk()]
+
+# --------------------------------------------------------------------------- semantic defects inside one MIB
+
+HDR = 'A DEFINITIONS ::= BEGIN\nIMPORTS OBJECT-TYPE, MODULE-COMPLIANCE, OBJECT-GROUP, enterprises FROM SNMPv2-SMI;\n'
+OT = 'x OBJECT-TYPE SYNTAX INTEGER MAX-ACCESS read-only STATUS current DESCRIPTION "d" %s ::= { enterprises 1 }\n'
+ODD = [
+    ('oid-cycle-of-two', 'a OBJECT IDENTIFIER ::= { b 1 }\nb OBJECT IDENTIFIER ::= { a 1 }\n'),
+    ('oid-cycle-of-one', 'a OBJECT IDENTIFIER ::= { a 1 }\n'),
+    ('oid-cycle-of-three', 'a OBJECT IDENTIFIER ::= { c 1 }\nb OBJECT IDENTIFIER ::= { a 1 }\nc OBJECT IDENTIFIER ::= { b 1 }\n'),
+    ('oid-below-a-type', 'T ::= INTEGER\nb OBJECT IDENTIFIER ::= { T 1 }\n'),
+    ('oid-below-an-imported-type', 'b OBJECT IDENTIFIER ::= { OBJECT-TYPE 1 }\n'),
+    ('augments-a-number', OT % 'AUGMENTS { 10 }'),
+    ('index-a-number', OT % 'INDEX { 1 }'),
+    ('index-implied-number', OT % 'INDEX { IMPLIED 1 }'),
+    ('index-name-and-number', OT % 'INDEX { x, 1 }'),
+    ('mandatory-group-a-number', 'c MODULE-COMPLIANCE STATUS current DESCRIPTION "d" MODULE MANDATORY-GROUPS { 1 } ::= { enterprises 2 }\n'),
+    ('group-a-number', 'c MODULE-COMPLIANCE STATUS current DESCRIPTION "d" MODULE GROUP 11 DESCRIPTION "x" ::= { enterprises 2 }\n'),
+    ('objects-a-number', 'g OBJECT-GROUP OBJECTS { 1 } STATUS current DESCRIPTION "d" ::= { enterprises 3 }\n'),
+    ('type-cycle-of-two', 'T ::= U\nU ::= T\n' + OT.replace('INTEGER', 'T') % 'DEFVAL { 1 }'),
+    ('type-of-itself', 'T ::= T\n' + OT.replace('INTEGER', 'T') % 'DEFVAL { 1 }'),
+    ('defval-unknown-label', OT % 'DEFVAL { nowhere }'),
+    ('oid-unknown-parent', 'b OBJECT IDENTIFIER ::= { nowhere 1 }\n'),
+    ('deep-alias-chain', ''.join('T%d ::= T%d\n' % (i, i + 1) for i in range(100)) + 'T100 ::= INTEGER\n'
+     + OT.replace('INTEGER', 'T0') % 'DEFVAL { 1 }'),
+    ('deep-oid-chain', 'n0 OBJECT IDENTIFIER ::= { enterprises 5 }\n'
+     + ''.join('n%d OBJECT IDENTIFIER ::= { n%d 1 }\n' % (i + 1, i) for i in range(100))),
+]
+CROSS = {
+    'type-cycle-across-modules': {
+        'A': 'A DEFINITIONS ::= BEGIN\nIMPORTS U FROM B OBJECT-TYPE, enterprises FROM SNMPv2-SMI;\nT ::= U\n'
+             'x OBJECT-TYPE SYNTAX T MAX-ACCESS read-only STATUS current DESCRIPTION "d" DEFVAL { 1 } ::= { enterprises 1 }\nEND\n',
+        'B': 'B DEFINITIONS ::= BEGIN\nIMPORTS T FROM A;\nU ::= T\nEND\n'},
+    'oid-cycle-across-modules': {
+        'A': 'A DEFINITIONS ::= BEGIN\nIMPORTS b FROM B;\na OBJECT IDENTIFIER ::= { b 1 }\nEND\n',
+        'B': 'B DEFINITIONS ::= BEGIN\nIMPORTS a FROM A;\nb OBJECT IDENTIFIER ::= { a 1 }\nEND\n'},
+}
+
+
+class SemanticOddities(object):
+    case_timeout = 60
+    name = 'semantic-defects-in-a-mib'
+    describe = ('texts the grammar accepts but that make no sense: OID definitions forming a cycle (1, 2, 3 nodes, across two '
+                'modules), an OID hung below a type, a number where an object name is expected (AUGMENTS / INDEX / MANDATORY-GROUPS / '
+                'GROUP / OBJECTS), type definitions forming a cycle (one module, two modules) under a DEFVAL, unknown labels, '
+                '1200-link alias and OID chains; both code generators, ignoreErrors on/off, a sound module B requested alongside: '
+                'compile() returns, A has one of the six statuses (a legal chain: compiled), B is compiled or unprocessed')
+
+    def blocks(self, tier):
+        return [{'backend': b} for b in ('json', 'pysnmp')]
+
+    def cases(self, block, tier):
+        for i in range(len(ODD)):
+            for ie in (False, True):
+                yield {'backend': block['backend'], 'odd': i, 'ie': ie}
+        for k in sorted(CROSS):
+            for ie in (False, True):
+                yield {'backend': block['backend'], 'cross': k, 'ie': ie}
+
+    def run_case(self, case):
+        from mc import env
+        if 'cross' in case:
+            label = case['cross']
+            texts = dict(CROSS[label])
+            req = ['A', 'GOOD']
+        else:
+            label, body = ODD[case['odd']]
+            texts = {'A': HDR + body + 'END\n'}
+            req = ['A', 'GOOD']
+        texts['GOOD'] = 'GOOD DEFINITIONS ::= BEGIN\nIMPORTS enterprises FROM SNMPv2-SMI;\ngood OBJECT IDENTIFIER ::= { enterprises 77 }\nEND\n'
+        sig = 'C07|semantic-defect|%s|%s' % (label, case['backend'])
+        try:
+            res, written = env.compile_set(texts, req, codegen=case['backend'], ignoreErrors=case['ie'])
+        except BaseException as exc:
+            if type(exc).__name__ == 'CaseTimeout':
+                raise
+            return 'escaped', [('%s|exception-escapes-compile|%s' % (sig, type(exc).__name__), '%s\n%r' % (
+                texts['A'][:600], exc))], 1
+        vs = []
+        for m in req:
+            if str(res.get(m)) not in H.STATUSES:
+                vs.append(('%s|module-without-status' % sig, '%s: %r in %r' % (m, res.get(m), dict(res))))
+        if label.startswith('deep-') and res.get('A') != 'compiled':
+            vs.append(('%s|legal-chain-not-compiled' % sig, '%r %r' % (res.get('A'), getattr(res.get('A'), 'error', None))))
+        good = str(res.get('GOOD'))
+        a_bad = str(res.get('A')) in ('failed', 'missing')
+        want = 'unprocessed' if (a_bad and not case['ie']) else 'compiled'
+        if good != want:
+            vs.append(('%s|sound-module-%s-where-%s' % (sig, good, want), repr(dict((k, str(v)) for k, v in res.items()))))
+        if ('GOOD' in written) != (good == 'compiled'):
+            vs.append(('%s|status-and-hand-over-disagree' % sig, '%r written %r' % (good, sorted(written))))
+        return repr(sorted((k, str(v)) for k, v in res.items())), vs, 1
+
+FAMILIES = [NoDeviation(), OneDeviation(), TwoDeviations(), FailureAndRepair(), FilesOnDisk(), SemanticOddities()]
